@@ -9,7 +9,7 @@ use crate::envx::{self, scval_i128, Ev};
 use num_bigint::BigInt;
 use proptest::prelude::*;
 use serde::{Deserialize, Serialize};
-use soroban_sdk::{Address, IntoVal, Val};
+use soroban_sdk::Address;
 
 #[derive(Clone, Debug, Serialize, Deserialize)]
 pub struct Case {
@@ -34,6 +34,7 @@ fn weights(f: Flavor) -> OpWeights {
         list: if f.has_list() { 2 } else { 0 },
         pause: if f.has_pause() { 1 } else { 0 },
         exact_auth: 30,
+        spend_profile: false,
     }
 }
 
@@ -170,257 +171,52 @@ pub fn run(case: &Case, ctx: &mut Ctx) -> R {
 
     // initial list membership (set-up, exact auth)
     if case.flavor.has_list() {
-        for (i, a) in holders.iter().enumerate() {
-            let want = (case.listed >> i) & 1 == 1;
-            if want != d.listed[i] {
-                let func = match (case.flavor.is_allow(), want) {
-                    (true, true) => "allow_user",
-                    (true, false) => "disallow_user",
-                    (false, true) => "block_user",
-                    (false, false) => "unblock_user",
-                };
-                let c = Call {
-                    func,
-                    args: vec![a.into_val(e), t.manager.clone().into_val(e)],
-                    required: vec![t.manager.clone()],
-                    amount_arg: None,
-                };
-                let (r, _) = exec(&t, &c, &AuthMode::Exact);
-                ensure!(r.is_ok(), "C01/setup/list", "list set-up call {func} failed: {:?}", r);
-            }
-        }
+        t.setup_lists(case.listed).map_err(|er| violation("C01/setup/list", er))?;
         d = t.dump();
     }
 
     let mut ok_supply_change = false;
     let mut ok_transfer = false;
     let mut failed = false;
-    // live_until of approvals seen (for AdvanceToExpiry)
-    let mut expiries: Vec<u32> = vec![];
+    let mut hist = Hist::default();
 
     for (step, op) in case.ops.iter().enumerate() {
-        #[derive(PartialEq)]
-        enum Kind {
-            Mint,
-            Burn,
-            Transfer,
-            Other,
-        }
-        let (call, mode, kind, amount, parties): (Call, AuthMode, Kind, i128, (Option<Address>, Option<Address>)) = match op {
-            Op::Advance { k } => {
-                envx::advance(e, *k);
+        let r = match t.resolve(op, &d, &mut hist) {
+            Step::Advanced => {
                 d = t.dump();
                 check_state(&t, &d, &rp, "advance")?;
                 continue;
             }
-            Op::AdvanceToExpiry { which, d: dd } => {
-                if !expiries.is_empty() {
-                    let target = expiries[crate::gen::pick(*which, expiries.len())] as i64 + *dd as i64;
-                    let now = envx::seq(e) as i64;
-                    if target > now && target - now < 100_000 {
-                        envx::set_seq(e, target as u32);
-                    }
-                }
-                d = t.dump();
-                check_state(&t, &d, &rp, "advance")?;
+            Step::Skipped => {
+                ctx.class("skipped_op");
                 continue;
             }
-            Op::Mint { to, amt, auth } => {
-                if !case.flavor.has_mint() {
-                    ctx.class("skipped_op");
-                    continue;
-                }
-                let ti = t.acct_idx(*to);
-                let a = t.resolve_amt(amt, &d, ti, None);
-                let req = if case.flavor.mint_needs_auth() { vec![t.admin.clone()] } else { vec![] };
-                (
-                    Call { func: "mint", args: vec![t.accts[ti].clone().into_val(e), a.into_val(e)], required: req, amount_arg: Some(1) },
-                    auth.clone(),
-                    Kind::Mint,
-                    a,
-                    (None, Some(t.accts[ti].clone())),
-                )
-            }
-            Op::Transfer { from, to, amt, muxed, auth } => {
-                let fi = t.acct_idx(*from);
-                let a = t.resolve_amt(amt, &d, fi, None);
-                let (to_val, to_addr): (Val, Address) = match muxed {
-                    Some(id) => {
-                        ctx.class("muxed_destination");
-                        (muxed_to(e, &t.sink, *id).into_val(e), t.sink.clone())
-                    }
-                    None => {
-                        let ta = t.acct(*to);
-                        (ta.clone().into_val(e), ta)
-                    }
-                };
-                if to_addr == t.accts[fi] {
-                    ctx.class("self_transfer");
-                }
-                (
-                    Call {
-                        func: "transfer",
-                        args: vec![t.accts[fi].clone().into_val(e), to_val, a.into_val(e)],
-                        required: vec![t.accts[fi].clone()],
-                        amount_arg: Some(2),
-                    },
-                    auth.clone(),
-                    Kind::Transfer,
-                    a,
-                    (Some(t.accts[fi].clone()), Some(to_addr)),
-                )
-            }
-            Op::TransferFrom { spender, from, to, amt, auth } => {
-                let fi = t.acct_idx(*from);
-                let si = t.acct_idx(*spender);
-                let a = t.resolve_amt(amt, &d, fi, Some(si));
-                let ta = t.acct(*to);
-                if ta == t.accts[fi] {
-                    ctx.class("self_transfer");
-                }
-                (
-                    Call {
-                        func: "transfer_from",
-                        args: vec![
-                            t.accts[si].clone().into_val(e),
-                            t.accts[fi].clone().into_val(e),
-                            ta.clone().into_val(e),
-                            a.into_val(e),
-                        ],
-                        required: vec![t.accts[si].clone()],
-                        amount_arg: Some(3),
-                    },
-                    auth.clone(),
-                    Kind::Transfer,
-                    a,
-                    (Some(t.accts[fi].clone()), Some(ta)),
-                )
-            }
-            Op::Approve { owner, spender, amt, live, auth } => {
-                let oi = t.acct_idx(*owner);
-                let si = t.acct_idx(*spender);
-                let a = t.resolve_amt(amt, &d, oi, Some(si));
-                let l = t.resolve_live(live);
-                expiries.push(l);
-                (
-                    Call {
-                        func: "approve",
-                        args: vec![
-                            t.accts[oi].clone().into_val(e),
-                            t.accts[si].clone().into_val(e),
-                            a.into_val(e),
-                            l.into_val(e),
-                        ],
-                        required: vec![t.accts[oi].clone()],
-                        amount_arg: Some(2),
-                    },
-                    auth.clone(),
-                    Kind::Other,
-                    a,
-                    (None, None),
-                )
-            }
-            Op::Burn { from, amt, auth } => {
-                if !case.flavor.has_burn() {
-                    ctx.class("skipped_op");
-                    continue;
-                }
-                let fi = t.acct_idx(*from);
-                let a = t.resolve_amt(amt, &d, fi, None);
-                (
-                    Call {
-                        func: "burn",
-                        args: vec![t.accts[fi].clone().into_val(e), a.into_val(e)],
-                        required: vec![t.accts[fi].clone()],
-                        amount_arg: Some(1),
-                    },
-                    auth.clone(),
-                    Kind::Burn,
-                    a,
-                    (Some(t.accts[fi].clone()), None),
-                )
-            }
-            Op::BurnFrom { spender, from, amt, auth } => {
-                if !case.flavor.has_burn() {
-                    ctx.class("skipped_op");
-                    continue;
-                }
-                let fi = t.acct_idx(*from);
-                let si = t.acct_idx(*spender);
-                let a = t.resolve_amt(amt, &d, fi, Some(si));
-                (
-                    Call {
-                        func: "burn_from",
-                        args: vec![t.accts[si].clone().into_val(e), t.accts[fi].clone().into_val(e), a.into_val(e)],
-                        required: vec![t.accts[si].clone()],
-                        amount_arg: Some(2),
-                    },
-                    auth.clone(),
-                    Kind::Burn,
-                    a,
-                    (Some(t.accts[fi].clone()), None),
-                )
-            }
-            Op::ListSet { who, on, auth } => {
-                if !case.flavor.has_list() {
-                    ctx.class("skipped_op");
-                    continue;
-                }
-                let func = match (case.flavor.is_allow(), *on) {
-                    (true, true) => "allow_user",
-                    (true, false) => "disallow_user",
-                    (false, true) => "block_user",
-                    (false, false) => "unblock_user",
-                };
-                (
-                    Call {
-                        func,
-                        args: vec![t.acct(*who).into_val(e), t.manager.clone().into_val(e)],
-                        required: vec![t.manager.clone()],
-                        amount_arg: None,
-                    },
-                    auth.clone(),
-                    Kind::Other,
-                    0,
-                    (None, None),
-                )
-            }
-            Op::Pause { on, by_owner, auth } => {
-                if !case.flavor.has_pause() {
-                    ctx.class("skipped_op");
-                    continue;
-                }
-                let caller = if *by_owner { t.admin.clone() } else { t.accts[t.accts.len() - 1].clone() };
-                (
-                    Call {
-                        func: if *on { "pause" } else { "unpause" },
-                        args: vec![caller.clone().into_val(e)],
-                        required: vec![caller],
-                        amount_arg: None,
-                    },
-                    auth.clone(),
-                    Kind::Other,
-                    0,
-                    (None, None),
-                )
-            }
+            Step::Call(r) => r,
         };
-        if amount == 0 {
+        let amount = r.amount;
+        if r.muxed {
+            ctx.class("muxed_destination");
+        }
+        if matches!(r.kind, Kind::Transfer | Kind::TransferFrom) && r.from == r.to {
+            ctx.class("self_transfer");
+        }
+        let is_amount_op = !matches!(r.kind, Kind::List | Kind::Pause);
+        if is_amount_op && amount == 0 {
             ctx.class("zero_amount");
         }
-        if amount < 0 {
+        if is_amount_op && amount < 0 {
             ctx.class("negative_amount");
         }
-        if kind == Kind::Mint && amount > 0 && amount.checked_add(d.supply).is_none() {
+        if r.kind == Kind::Mint && amount > 0 && amount.checked_add(d.supply).is_none() {
             ctx.class("overflow_attempt");
         }
 
-        let (r, _exact) = exec(&t, &call, &mode);
-        let evs = if r.is_ok() { supply_events(&t, &envx::events_of(e, &t.addr))? } else { vec![] };
+        let (res, _exact) = exec(&t, &r.call, &r.mode);
+        let evs = if res.is_ok() { supply_events(&t, &envx::events_of(e, &t.addr))? } else { vec![] };
         let d2 = t.dump();
-        ctx.op(r.is_ok());
-        let what = format!("step {step} {}({:?})", call.func, op);
-        match &r {
+        ctx.op(res.is_ok());
+        let what = format!("step {step} {}({:?})", r.call.func, op);
+        match &res {
             Err(_) => {
                 failed = true;
                 ensure!(
@@ -433,24 +229,20 @@ pub fn run(case: &Case, ctx: &mut Ctx) -> R {
             }
             Ok(_) => {
                 let delta = BigInt::from(d2.supply) - BigInt::from(d.supply);
-                let want_delta = match kind {
-                    Kind::Mint => BigInt::from(amount),
-                    Kind::Burn => -BigInt::from(amount),
-                    _ => BigInt::from(0),
-                };
-                let clause = match kind {
-                    Kind::Mint => "C01/mint/supply-delta",
-                    Kind::Burn => "C01/burn/supply-delta",
-                    Kind::Transfer => "C01/transfer/supply-changed",
-                    Kind::Other => "C01/other/supply-changed",
+                let (want_delta, clause) = match r.kind {
+                    Kind::Mint => (BigInt::from(amount), "C01/mint/supply-delta"),
+                    Kind::Burn | Kind::BurnFrom => (-BigInt::from(amount), "C01/burn/supply-delta"),
+                    Kind::Transfer | Kind::TransferFrom => (BigInt::from(0), "C01/transfer/supply-changed"),
+                    _ => (BigInt::from(0), "C01/other/supply-changed"),
                 };
                 ensure!(delta == want_delta, clause, "{what}: supply moved by {delta}, expected {want_delta}");
                 // exactly one matching event per successful supply/transfer op
-                let want_ev: Vec<SupplyEv> = match kind {
-                    Kind::Mint => vec![SupplyEv::Mint(parties.1.clone().unwrap(), amount)],
-                    Kind::Burn => vec![SupplyEv::Burn(parties.0.clone().unwrap(), amount)],
-                    Kind::Transfer => vec![SupplyEv::Transfer(parties.0.clone().unwrap(), parties.1.clone().unwrap(), amount)],
-                    Kind::Other => vec![],
+                let h = |i: Option<usize>| holders[i.unwrap()].clone();
+                let want_ev: Vec<SupplyEv> = match r.kind {
+                    Kind::Mint => vec![SupplyEv::Mint(h(r.to), amount)],
+                    Kind::Burn | Kind::BurnFrom => vec![SupplyEv::Burn(h(r.from), amount)],
+                    Kind::Transfer | Kind::TransferFrom => vec![SupplyEv::Transfer(h(r.from), h(r.to), amount)],
+                    _ => vec![],
                 };
                 ensure!(
                     evs == want_ev,
@@ -462,19 +254,20 @@ pub fn run(case: &Case, ctx: &mut Ctx) -> R {
                 for ev in &evs {
                     rp.apply(ev)?;
                 }
-                match kind {
-                    Kind::Mint | Kind::Burn => ok_supply_change = true,
-                    Kind::Transfer => ok_transfer = true,
+                match r.kind {
+                    Kind::Mint | Kind::Burn | Kind::BurnFrom => ok_supply_change = true,
+                    Kind::Transfer | Kind::TransferFrom => ok_transfer = true,
                     _ => {}
                 }
             }
         }
         check_state(&t, &d2, &rp, &what)?;
         // entry-point reads of the touched parties
-        for p in [&parties.0, &parties.1].into_iter().flatten() {
-            let i = holders.iter().position(|h| h == p).unwrap();
-            let b = t.api_balance(p).map_err(|er| violation("C01/api/balance-failed", er))?;
-            ensure!(b == d2.bal[i], "C01/api/balance-mismatch", "{what}: balance() = {b}, storage read = {}", d2.bal[i]);
+        if is_amount_op && r.kind != Kind::Approve {
+            for i in [r.from, r.to].into_iter().flatten() {
+                let b = t.api_balance(&holders[i]).map_err(|er| violation("C01/api/balance-failed", er))?;
+                ensure!(b == d2.bal[i], "C01/api/balance-mismatch", "{what}: balance() = {b}, storage read = {}", d2.bal[i]);
+            }
         }
         d = d2;
     }
